@@ -739,6 +739,146 @@ Proof.
       * cbn [length]. rewrite Hlen. unfold ts in *. rewrite Hp1 in Htx. repeat split; try assumption.
 Qed.
 
+
+(* the poll that takes a freshly created station online on a silent bus: it starts listening, and its
+   silence time-out starts now *)
+Lemma online_first_poll f t0 (apps : list A) :
+  f_conn f = ConnOnline -> f_state f = Offline -> f_lba f = None -> 0 < token_lost_timeout (f_p f) ->
+  exists f', poll ops f t0 (mkPhyIn false []) apps = Ok (f', mkPhyOut None [], apps, []) /\
+             f_conn f' = ConnOnline /\ f_state f' = ListenToken None 0 /\ f_lba f' = Some t0 /\ f_p f' = f_p f.
+Proof.
+  intros Hc Hs Hl Hto. unfold poll, poll_traced, poll_inner. rewrite Hc, Hs. cbn [kind_of online_entry_kind tx_busy rx].
+  unfold trans, transition_listen_token, assert_kind. rewrite Hs. cbn [kind_of may_transition_listen_token bind].
+  rewrite body_eq.
+  remember (set_st f (ListenToken None 0)) as g eqn:Eg.
+  assert (Hsg : f_state g = ListenToken None 0) by (subst g; reflexivity).
+  assert (Hlg : f_lba g = None) by (subst g; exact Hl).
+  assert (Hpg : f_p g = f_p f) by (subst g; reflexivity).
+  assert (Hcg : f_conn g = ConnOnline) by (subst g; exact Hc).
+  clear Eg.
+  unfold body, predicted. rewrite Hlg. cbn [orb].
+  unfold check_for_bus_activity. cbn [w_rx note length].
+  destruct (Nat.ltb_spec (f_pending g) 0) as [C|_]; [lia|].
+  unfold dispatch. rewrite Hsg. cbn [kind_of poll_dispatch].
+  unfold do_listen_token, assert_entry. rewrite Hsg. cbn [kind_of do_fn_entry state_kind_eqb bind].
+  unfold handle_lost_token, lba_get_or_insert. rewrite Hlg.
+  unfold inst_diff. rewrite Z.sub_diag. replace (i64_ok 0) with true by reflexivity. cbn [bind Z.abs f_p set_lba].
+  rewrite Hpg. destruct (Z.leb_spec (token_lost_timeout (f_p f)) 0) as [C|_]; [lia|].
+  cbn [bind f_state set_lba]. rewrite Hsg. cbn [get_listen_token bind].
+  unfold receive_all_telegrams, receive_all_fuel. cbn [w_rx note length]. rewrite receive_all_step.
+  cbn [decode_spec bind]. eexists. split; [reflexivity|]. cbn. repeat split; assumption.
+Qed.
+
+(* holding the token in a state that does not read the receive buffer (UseToken, the transmitting steps
+   of ClaimToken, PassToken): new receive bytes restart the synchronisation pause, so nothing is
+   transmitted in that poll, the bytes stay buffered, and the state kind is kept *)
+Lemma wait_sync_fresh f now f2 b :
+  f_lba f = Some now -> wait_synchronization_pause f now = Ok (f2, b) -> b = true /\ f2 = f.
+Proof.
+  intros Hl H. unfold wait_synchronization_pause, lba_get_or_insert in H. rewrite Hl in H.
+  unfold inst_add in H. destruct (i64_ok _); cbn [bind] in H; [|discriminate H].
+  injection H as <- <-. split; [|reflexivity]. apply Z.leb_le. pose proof (sync_nonneg f). lia.
+Qed.
+
+Definition holds_without_reading (s : state) : bool :=
+  match s with
+  | UseToken _ _ _ | PassToken _ _ | ClaimToken StepFirstToken | ClaimToken StepSecondToken | ClaimToken StepScan => true
+  | _ => false
+  end.
+
+Theorem holding_defers f now pin (apps : list A) f' o a c :
+  holds_without_reading (f_state f) = true -> tx_busy pin = false -> predicted f now = false ->
+  (f_pending f < length (rx pin))%nat ->
+  poll ops f now pin apps = Ok (f', o, a, c) ->
+  o = mkPhyOut None (rx pin) /\ a = apps /\ c = [] /\ f_state f' = f_state f /\ f_ring f' = f_ring f.
+Proof.
+  intros Hh Hb Hp Hn H.
+  apply poll_inv in H. destruct H as [w' [H [-> [-> ->]]]]. rewrite Hb in H.
+  apply poll_inner_cases in H. destruct H as [[_ [Hs _]]|[_ [f0 [w0 [Hpro H]]]]]; [rewrite Hs in Hh; discriminate Hh|].
+  assert (Hf0 : f0 = f /\ w0 = mkWorld (rx pin) None apps [] []).
+  { destruct (in_pass (f_state f)) eqn:Ep; [exact (prologue_in_pass A _ _ _ _ Hpro Ep)|].
+    apply (prologue_have_token A _ _ _ _ Hpro).
+    destruct (f_state f) as [ | | | | |[ | | |x]| | | | ]; try discriminate Hh; try discriminate Ep; reflexivity. }
+  destruct Hf0 as [-> ->].
+  unfold body in H. rewrite Hp in H. cbn [orb] in H.
+  destruct (check_for_bus_activity A f now _) as [f1 w1] eqn:Ec.
+  apply cfba_new_bytes in Ec; [|exact Hp|exact Hn].
+  destruct Ec as [[_ [Hr1 [_ [_ [Hs1 _]]]]] [Hl1 [_ [Htx1 [Hca1 [Hrx1 Hap1]]]]]].
+  cbn [w_tx w_calls w_rx w_apps] in Htx1, Hca1, Hrx1, Hap1.
+  unfold dispatch in H. rewrite Hs1 in H.
+  destruct (f_state f) as [ | | | |tk fa fcd|[ | | |x]| |dg att| | ] eqn:Es; try discriminate Hh; cbn [kind_of poll_dispatch] in H.
+  - (* UseToken *)
+    unfold do_use_token, assert_entry in H. rewrite Hs1 in H. cbn [kind_of do_fn_entry state_kind_eqb bind get_use_token] in H.
+    match type of H with bind ?x _ = _ => destruct x as [[f2 w2]| |] eqn:E1 end; cbn [bind] in H; try discriminate H.
+    assert (H2 : f_lba f2 = Some now /\ f_state f2 = f_state f1 /\ f_ring f2 = f_ring f1 /\ w2 = w1 \/
+                 f_lba f2 = Some now /\ f_state f2 = f_state f1 /\ f_ring f2 = f_ring f1 /\ exists tg, w2 = note A w1 tg).
+    { destruct (negb _).
+      - destruct (inst_add _ _) as [e| |]; cbn [bind] in E1; try discriminate E1.
+        destruct (f_gap f1).
+        + injection E1 as <- <-. right. cbn. repeat split; try assumption. eexists; reflexivity.
+        + destruct (inst_sub_dur _ _) as [e2| |]; cbn [bind] in E1; try discriminate E1.
+          injection E1 as <- <-. right. cbn. repeat split; try assumption. eexists; reflexivity.
+      - injection E1 as <- <-. left. repeat split; try assumption. }
+    assert (H3 : f_lba f2 = Some now /\ f_state f2 = f_state f1 /\ f_ring f2 = f_ring f1 /\
+                 w_tx w2 = None /\ w_calls w2 = [] /\ w_rx w2 = rx pin /\ w_apps w2 = apps).
+    { destruct H2 as [[A1 [A2 [A3 ->]]]|[A1 [A2 [A3 [tg ->]]]]]; cbn; repeat split; assumption. }
+    destruct H3 as [A1 [A2 [A3 [B1 [B2 [B3 B4]]]]]].
+    destruct (wait_synchronization_pause f2 now) as [[f3 wait]| |] eqn:Ew; cbn [bind] in H; try discriminate H.
+    apply wait_sync_fresh in Ew; [|exact A1]. destruct Ew as [-> ->].
+    injection H as <- <-. cbn. rewrite B1, B2, B3, B4. repeat split; congruence.
+  - (* ClaimToken FirstToken *)
+    unfold do_claim_token, assert_entry in H. rewrite Hs1 in H. cbn [kind_of do_fn_entry state_kind_eqb bind get_claim_token_step] in H.
+    destruct (wait_synchronization_pause f1 now) as [[f3 wait]| |] eqn:Ew; cbn [bind] in H; try discriminate H.
+    apply wait_sync_fresh in Ew; [|exact Hl1]. destruct Ew as [-> ->].
+    injection H as <- <-. cbn. rewrite Htx1, Hca1, Hrx1, Hap1. repeat split; congruence.
+  - (* ClaimToken SecondToken *)
+    unfold do_claim_token, assert_entry in H. rewrite Hs1 in H. cbn [kind_of do_fn_entry state_kind_eqb bind get_claim_token_step] in H.
+    destruct (wait_synchronization_pause f1 now) as [[f3 wait]| |] eqn:Ew; cbn [bind] in H; try discriminate H.
+    apply wait_sync_fresh in Ew; [|exact Hl1]. destruct Ew as [-> ->].
+    injection H as <- <-. cbn. rewrite Htx1, Hca1, Hrx1, Hap1. repeat split; congruence.
+  - (* ClaimToken Scan *)
+    unfold do_claim_token, assert_entry in H. rewrite Hs1 in H. cbn [kind_of do_fn_entry state_kind_eqb bind get_claim_token_step] in H.
+    unfold do_claim_token_scan in H.
+    destruct (wait_synchronization_pause f1 now) as [[f3 wait]| |] eqn:Ew; cbn [bind] in H; try discriminate H.
+    apply wait_sync_fresh in Ew; [|exact Hl1]. destruct Ew as [-> ->].
+    injection H as <- <-. cbn. rewrite Htx1, Hca1, Hrx1, Hap1. repeat split; congruence.
+  - (* PassToken *)
+    unfold do_pass_token, assert_entry in H. rewrite Hs1 in H. cbn [kind_of do_fn_entry state_kind_eqb bind] in H.
+    destruct (wait_synchronization_pause f1 now) as [[f3 wait]| |] eqn:Ew; cbn [bind] in H; try discriminate H.
+    apply wait_sync_fresh in Ew; [|exact Hl1]. destruct Ew as [-> ->].
+    injection H as <- <-. cbn. rewrite Htx1, Hca1, Hrx1, Hap1. repeat split; congruence.
+Qed.
+
+
+(* the same for a station that has just been set online (state still Offline, no bus activity recorded):
+   its first poll at t0 starts the time-out *)
+Theorem fresh_station_claims : forall ts1 f (apps : list A) t0 T,
+  f_conn f = ConnOnline -> f_state f = Offline -> f_lba f = None -> 0 < token_lost_timeout (f_p f) -> time_ok t0 ->
+  Forall (fun t => time_ok t /\ t0 < t /\ t - t0 < token_lost_timeout (f_p f)) ts1 ->
+  time_ok T -> token_lost_timeout (f_p f) <= T - t0 -> t0 + p_bits_to_time (f_p f) sync_pause_bits < T ->
+  exists first pre last,
+    run_polls ops f apps (map silent_in (t0 :: ts1 ++ [T])) = Ok (first :: pre ++ [last]) /\
+    tx (s_out first) = None /\ f_state (s_f' first) = ListenToken None 0 /\
+    Forall (fun s => tx (s_out s) = None /\ f_state (s_f' s) = ListenToken None 0) pre /\
+    length pre = length ts1 /\
+    s_now last = T /\ tx (s_out last) = Some (encode_token (ts f) (ts f)) /\
+    f_state (s_f' last) = ClaimToken StepSecondToken /\ have_token (f_state (s_f' last)) = true.
+Proof.
+  intros ts1 f apps t0 T Hc Hs Hl Hto T0 Hall TT Hge Hsync.
+  destruct (online_first_poll f t0 apps Hc Hs Hl Hto) as [f1 [Hp [Hc1 [Hs1 [Hl1 Hp1]]]]].
+  destruct (lone_station_claims ts1 f1 apps t0 T) as [pre [last [Hrun [Hpre [Hlen [Hnow [Htx [Hst Hht]]]]]]]]; try assumption.
+  - left. exists 0. exact Hs1.
+  - rewrite Hp1. exact Hall.
+  - rewrite Hp1. exact Hge.
+  - rewrite Hp1. exact Hsync.
+  - cbn [map silent_in run_polls]. fold silent_in. rewrite Hp. cbn [bind].
+    change (map (fun t => (t, mkPhyIn false [])) (ts1 ++ [T])) with (map silent_in (ts1 ++ [T])).
+    rewrite Hrun. cbn [bind].
+    exists (mkStep f t0 (mkPhyIn false []) f1 (mkPhyOut None [])), pre, last.
+    split; [reflexivity|]. cbn [s_out s_f' tx]. rewrite Hs1 in Hpre. unfold ts in *. rewrite Hp1 in Htx.
+    repeat split; assumption.
+Qed.
+
 End WithApps.
 
 (* a concrete run (non-vacuity of lone_station_claims): station 1 (default parameters: 19200 baud, slot
